@@ -155,6 +155,11 @@ def gen_expr_unit(rng):
     inputs = [eg.gen_input(rng) for _ in range(rng.choice((1, 3, 6)))]
     if rng.random() < 0.3:
         inputs.append({"s": shift_text(rng), "u": shift_text(rng), "strs": [shift_text(rng)], "arr": [1, 2], "i": rng.choice((0, 1, 2, 33))})
+    if rng.random() < 0.1:
+        pool = [2 ** 64 - 1, 2 ** 64 - 2, 2 ** 64, 2 ** 64 + 2048, 2 ** 63, 2 ** 63 - 1, -(2 ** 63), -(2 ** 63) + 1, -(2 ** 63) - 1025, 2 ** 53, 2 ** 53 + 1,
+                1.8446744073709552e19, -9.223372036854776e18, 0, -0.0, 0.5, 1e300, -1e300, 5e-324, 18446744073709550000]
+        big = [rng.choice(pool) for _ in range(rng.choice((21, 24, 40, 100)))]
+        inputs.append({"arr": big, "objs": [{"n": x, "s": "k"} for x in big[:30]], "obj": {"k%d" % i: x for i, x in enumerate(big[:25])}, "n": 1, "i": 3})
     if rng.random() < 0.25:
         inputs.append({"n": rng.choice(eg.EXTREME_NUMS), "i": rng.choice((0, 1, 10000, 9999)), "arr": rng.sample(eg.EXTREME_NUMS, 3), "s": "", "u": "",
                        "strs": ["", ""], "obj": {"a": rng.choice(eg.EXTREME_NUMS)}, "nas": rng.choice(NAS_EXTREMES), "t": rng.choice(eg.EXTREME_NUMS)})
